@@ -53,6 +53,13 @@ def parse_check(ctx):
         sp = ctx.harness('sched', prop=pid, **{'in': rp['out']})
         viol += list(sp['violations'])
         extra['gate_replay'] = dict(sp['compared'], schedules=sp['info'].get('schedules', 0))
+    if pid in ('C01', 'C18'):
+        # every 1-3 letter string that is not an abbreviation of the version (legal set from the spec)
+        import json
+        from .objfam import spec_tables
+        sa = ctx.harness('abvsweep', prop=pid, aux=json.dumps(spec_tables(ctx)))
+        viol += list(sa['violations'])
+        extra['abbreviation_sweep'] = dict(sa['compared'], strings=sa['distinct'])
     if pid in ('C01', 'C06', 'C08'):
         # M3: recorded calls on byte-level mutants / random histories, validated event by event by TLC (Trace.tla)
         from . import tracefam
